@@ -162,12 +162,18 @@ func deepCopyD(v interface{}, d int) interface{} {
 	}
 	switch x := v.(type) {
 	case map[string]interface{}:
+		if x == nil {
+			return x // a nil map stays nil (it differs from an empty one for reflect.DeepEqual and encoding/json)
+		}
 		m := make(map[string]interface{}, len(x))
 		for k, e := range x {
 			m[k] = deepCopyD(e, d+1)
 		}
 		return m
 	case []interface{}:
+		if x == nil {
+			return x
+		}
 		l := make([]interface{}, len(x))
 		for i, e := range x {
 			l[i] = deepCopyD(e, d+1)
